@@ -22,6 +22,11 @@ pub enum Fault {
     PutFailsAlways { pat: String },
     /// the first GET of an object whose key contains `pat` fails
     GetFailsOnce { pat: String },
+    /// the first `n` PUTs of each matching object fail: more than the SDK's own retries absorb, so the
+    /// storage code sees one failed upload and its own retry succeeds
+    PutFailsFirst { pat: String, n: u32 },
+    /// every GET of matching objects fails (restart must fail loudly, never restore something else)
+    GetFailsAlways { pat: String },
 }
 
 #[derive(Clone, Debug, Serialize, Deserialize)]
@@ -47,6 +52,8 @@ fn setup_stub(fault: &Fault) {
         Fault::PutFailsOnce { pat, attempt } => g.put_faults.push((pat.clone(), vec![*attempt], false)),
         Fault::PutFailsAlways { pat } => g.put_faults.push((pat.clone(), vec![], true)),
         Fault::GetFailsOnce { pat } => g.get_fail_once.push(pat.clone()),
+        Fault::PutFailsFirst { pat, n } => g.put_faults.push((pat.clone(), (1..=*n).collect(), false)),
+        Fault::GetFailsAlways { pat } => g.get_fail_always.push(pat.clone()),
     }
 }
 
@@ -149,13 +156,13 @@ impl Property for C18 {
         "C18"
     }
     fn scenarios(&self) -> Vec<(&'static str, u32)> {
-        vec![("no-faults", 3), ("put-fails-once", 1), ("put-fails-always", 1), ("get-fails-once", 1)]
+        vec![("no-faults", 3), ("put-fails-once", 1), ("put-fails-always", 1), ("get-fails-once", 1), ("put-fails-first", 2), ("get-fails-always", 1)]
     }
     fn budget(&self) -> (u64, u64) {
         (500, 20_000)
     }
     fn rule(&self) -> &'static str {
-        "the C06 histories (2-40 steps of {set,set-safe,remove,increment,snapshot false/true,restart} over 2-3 keys and 1-2 databases, every history ending with snapshot + restart) with the storage strategy of the worker process in {s3, s3_patition} and 1, 3 or 10 partitions; the real aws-sdk-s3 (tokio) performs PUT/GET/ListObjectsV2 against an in-process stub server over a loopback socket; oracle = the C06 model (state captured when the snapshot completed), so disk defects can neither mask nor fake S3 ones. Fault sequences: the n-th PUT of an object fails once (result must equal the fault-free one), PUT fails always (must be reported by a log error or a failed snapshot, keys not marked clean), first GET fails (restart must succeed or fail loudly). Non-trivial: a restart was compared / a fault fired. distinct = distinct (program, fault, strategy, partitions)."
+        "the C06 histories (2-40 steps of {set,set-safe,remove,increment,snapshot false/true,restart} over 2-3 keys and 1-2 databases, every history ending with snapshot + restart) with the storage strategy of the worker process in {s3, s3_patition} and 1, 3 or 10 partitions; the real aws-sdk-s3 (tokio) performs PUT/GET/ListObjectsV2 against an in-process stub server over a loopback socket; oracle = the C06 model (state captured when the snapshot completed), so disk defects can neither mask nor fake S3 ones. Fault sequences: the n-th PUT of an object fails once, or the first 3-5 PUTs of an object fail (more than the SDK's own retries absorb: the storage code's retry must re-send the real content; result must equal the fault-free one), PUT fails always (must be reported by a log error or a failed snapshot, keys not marked clean), first GET fails / every GET of the metadata, partition or key objects fails (restart must succeed or fail loudly, never restore something else). Non-trivial: a restart was compared / a fault fired. distinct = distinct (program, fault, strategy, partitions)."
     }
     fn assumptions(&self) -> Vec<String> {
         vec![
@@ -190,6 +197,8 @@ impl Property for C18 {
                     "put-fails-once" => Fault::PutFailsOnce { pat, attempt: rng.range(1, 3) as u32 },
                     "put-fails-always" => Fault::PutFailsAlways { pat: "d/".into() },
                     "get-fails-once" => Fault::GetFailsOnce { pat },
+                    "put-fails-first" => Fault::PutFailsFirst { pat, n: rng.range(3, 5) as u32 },
+                    "get-fails-always" => Fault::GetFailsAlways { pat: ["nun.metadata", ".nun", "nun.keys", "/"][rng.below(4) as usize].to_string() },
                     _ => Fault::None,
                 };
                 Program { base, fault }
@@ -231,7 +240,12 @@ impl Property for C18 {
             for v in rep.violations.iter_mut() {
                 v.shape = format!("{}:{}", st, v.shape);
             }
-            if matches!(prog.fault, Fault::GetFailsOnce { .. }) {
+            if matches!(prog.fault, Fault::PutFailsFirst { .. }) {
+                // a strategy without a retry of its own reports the failed upload (error log + the
+                // snapshot fails): allowed by the statement; what must not happen is a silent loss
+                rep.violations.retain(|v| v.clause != "panic" && v.clause != "snapshot-stuck");
+            }
+            if matches!(prog.fault, Fault::GetFailsOnce { .. } | Fault::GetFailsAlways { .. }) {
                 rep.violations.retain(|v| v.clause != "restart-failed" && v.clause != "panic");
             }
         }
